@@ -266,7 +266,8 @@ def run(tier, seed):
         rep.assume(a)
     rep.assume("A-ASYNC; CancelledError may be raised at any await, once per run (a second cancellation during "
                "the clean-up is outside the property)")
-    rep.assume("program table: bpf.lookup_elem finds the slot free (errno 2), taken, or fails; update_elem / "
+    rep.assume("program table: bpf.lookup_elem finds the slot free (KeyError, as bpf._lookup_elem reports ENOENT - C10), "
+               "taken, or fails with another OSError; update_elem enters the group or is refused (OSError); update_elem / "
                "delete_elem add / remove the entry; the child's pidfd becomes readable when the child has exited; "
                "map variables of the group (wkc_errors) as plain fields (C08)")
     rep.assume("Terminal.set_state/to_operational: the bus write happens at some point while the coroutine is "
